@@ -34,6 +34,14 @@ def brute_solver(limit):
 def do_case(ctx, inp):
     a, objectives, mode = inp["ast"], inp["objectives"], inp["mode"]
     o = build(a)
+    if inp.get("stored"):
+        # an object that has been in use (its polyhedron asked for once) and was then copied or stored and loaded again: it is
+        # the same model, and the bridge works on it as on any other
+        import copy as _copy
+        if hasattr(o, "ge_polyhedron") and inp.get("used_first", True):
+            o.ge_polyhedron
+        o = _copy.deepcopy(o) if inp["stored"] == "deepcopy" else pg.from_b64(o.to_b64())
+        ctx.tags["used-then-" + inp["stored"]] += 1
     t = snap(o)
     is_cfg = t["cls"] == "Stingy"
     lv = leaves_of(t)
@@ -140,4 +148,5 @@ def run(ctx):
         objectives = [{x: rng.randint(-4, 4) for x in rng.sample(names, rng.randint(0, min(4, len(names))))} for _ in range(rng.randint(1, 3))]
         do_case(ctx, {"ast": a, "objectives": objectives, "mode": rng.choice(["recorder", "recorder", "exact", "none", "raise"]),
                       "include_virtual": rng.random() < 0.5, "only_leafs": rng.random() < 0.5,
-                      "via": rng.choice(["solve", "select"])})
+                      "via": rng.choice(["solve", "select"]),
+                      **({"stored": rng.choice(["deepcopy", "b64"]), "used_first": rng.random() < 0.8} if rng.random() < 0.2 else {})})
